@@ -2,6 +2,8 @@
 
 use crate::framework::Family;
 
+pub mod peers;
+pub mod registry_tree;
 pub mod stream_ctl;
 
 pub fn all() -> &'static [Family] {
@@ -9,6 +11,8 @@ pub fn all() -> &'static [Family] {
     ALL.get_or_init(|| {
         let mut v = Vec::new();
         v.extend(stream_ctl::families());
+        v.extend(peers::families());
+        v.extend(registry_tree::families());
         v
     })
 }
